@@ -35,6 +35,9 @@ type crashInfo struct {
 	// the image was taken inside the group of write calls with which one operation updates the meta file (hard state =
 	// length + data; snapshot = index + term + length + data) (known finding C17-torn-meta-record)
 	tornMeta bool
+	// the image was taken between two file removals of a truncation that spans files; the files are removed oldest
+	// first, so a file in the middle of the log is missing (known finding C17-truncation-removes-oldest-first)
+	tornRemove bool
 }
 
 func allZero(b []byte) bool {
@@ -69,6 +72,7 @@ func (m *machine) crashStep(o Op, info *crashInfo) error {
 	n := 0
 	prev4 := false
 	metaWrites := 0
+	removes := 0
 	prefix := m.root + string(filepath.Separator)
 	fileops.SetVerifFSCallback(func(op, path string, data []byte) int {
 		if !strings.HasPrefix(path, prefix) {
@@ -80,6 +84,12 @@ func (m *machine) crashStep(o Op, info *crashInfo) error {
 			ci.tornZeroFill = true
 		}
 		prev4 = op == "write" && isEntry && len(data) == 4
+		if n == o.Step && op == "remove" && removes > 0 && in.Kind == "save" {
+			ci.tornRemove = true
+		}
+		if op == "remove" {
+			removes++
+		}
 		isMeta := strings.HasSuffix(path, "raft.meta")
 		if n == o.Step && op == "write" && isMeta && metaWrites > 0 {
 			ci.tornMeta = true
@@ -117,7 +127,7 @@ func (m *machine) crashStep(o Op, info *crashInfo) error {
 		// recorded by the generator: image belongs to a known-finding class, not judged
 		return nil
 	}
-	if (ci.tornZeroFill || ci.tornMeta) && info != nil && !allowKnownEnv {
+	if (ci.tornZeroFill || ci.tornMeta || ci.tornRemove) && info != nil && !allowKnownEnv {
 		return nil
 	}
 	what := fmt.Sprintf("crash image before mutation %d/%d (%s of %s file) of %s", o.Step, ci.total, ci.mutOp, ci.mutFile, in.Kind)
@@ -292,6 +302,10 @@ func (g *gen) doCrash(o Op) {
 	if ci.tornZeroFill && !allowKnownEnv {
 		g.c.Excluded("crash_between_the_two_writes_of_truncation_zero_fill")
 		g.cs.Ops[len(g.cs.Ops)-1].Known = "torn_zero_fill"
+	}
+	if ci.tornRemove && !allowKnownEnv {
+		g.c.Excluded("crash_between_file_removals_of_truncation")
+		g.cs.Ops[len(g.cs.Ops)-1].Known = "truncation_removes_oldest_first"
 	}
 	if ci.tornMeta && !allowKnownEnv {
 		g.c.Excluded("crash_inside_the_write_group_of_a_meta_record")
